@@ -11,7 +11,7 @@ THEOREMS = ["Ymq.C11." + t for t in (
     "verify_sound combine_valid combine_undivisible unpack_pack normFactors_prod unpack_pack_verify "
     "pack_one_becomes_two add_inv history_inv cycles_valid try_factor_proper even_combination_square "
     "kernel_step_proper verify_false_negative doubles_disjoint_add doubles_disjoint pack_total add_no_panic "
-    "add_inv2 history_no_panic walk_root_max final_step_proper cycles_tail_even try_factor_unreduced_panics").split()]
+    "add_inv2 history_no_panic walk_root_max final_step_proper cycles_tail_even try_factor_unreduced_panics above_512_bits_counterexample").split()]
 PROFILES = ["release", "chk"]
 TIMEOUT = 60.0
 RULE = ("synthetic histories for the real RelationSet: n = p1*p2 (16..31-bit primes known to the generator, square roots "
@@ -27,7 +27,12 @@ MODELLED = ["relations.rs Relation::verify, RelationSet::{new,add,add_cycle,comb
             "PackedRelation::{pack,unpack}, combine (chunked products), try_factor, exponent accumulation of final_step "
             "and final_step around the kernel solver (occurrence table, stable sort, relation filter, kernel loop) "
             "(Ymq/Model/Relations.lean); maps as association lists in key order"]
-UNMODELLED = ["bnum Uint/Int operators and num_integer::gcd are taken as Nat/Int arithmetic (1024-bit width not modelled)",
+UNMODELLED = ["bnum Uint/Int operators and num_integer::gcd are taken as Nat/Int arithmetic; the 1024-bit width is not modelled: "
+              "for n <= 2^512 every product of two reduced operands is below 2^1024, above that bound the release build wraps "
+              "(counter-witness above_512_bits_counterexample; the sieves only build stores with n*k < 2^508)",
+              "stack depth: the model is recursive with fuel, the code's walk_doubles keeps an explicit stack since fix e402536 "
+              "(before it a chain of ~8000 doubles overflowed the 8 MiB stack); chains of 8000..20000 links run on the real code "
+              "(O only), chains up to 500 links are also compared with the model",
               "ZmodN operations inside relations::combine are taken as exact arithmetic modulo n (that is property C07)",
               "the kernel vectors handed to the final step are an input (kernel solvers are property C14)",
               "HashMap/BTreeMap/BTreeSet of std are taken to implement finite maps/sets with ordered iteration"]
@@ -207,6 +212,140 @@ class World:
         return None
 
 
+class MultiModulus:
+    """n = product of distinct odd primes known to the generator; square roots by CRT"""
+
+    def __init__(self, primes):
+        self.ps = list(primes)
+        self.n = 1
+        for q in self.ps:
+            self.n *= q
+        self.coef = [(self.n // q) * pow(self.n // q, -1, q) for q in self.ps]
+
+    def is_square(self, v):
+        return all(v % q != 0 and pow(v % q, (q - 1) // 2, q) == 1 for q in self.ps)
+
+    def sqrt(self, v, rng):
+        x = 0
+        for q, c in zip(self.ps, self.coef):
+            r = sqrt_mod_prime(v, q)
+            if r is None:
+                return None
+            if rng.random() < 0.5:
+                r = (-r) % q
+            x += r * c
+        return x % self.n
+
+
+_PRIMES = []
+
+
+def first_primes(count):
+    global _PRIMES
+    if len(_PRIMES) < count:
+        lim = max(1000, int(count * 14))
+        sieve = bytearray([1]) * (lim + 1)
+        sieve[0] = sieve[1] = 0
+        for i in range(2, int(lim ** 0.5) + 1):
+            if sieve[i]:
+                sieve[i * i::i] = bytearray(len(sieve[i * i::i]))
+        _PRIMES = [i for i in range(lim + 1) if sieve[i]]
+        assert len(_PRIMES) >= count
+    return _PRIMES[:count]
+
+
+def usable_fb_primes(mm, size):
+    """odd primes that are certainly in FBase::new(n, size): n is a non-zero square modulo p, and p is well
+    inside the truncated base (the base keeps 8*min((size+7)/8, len/8) of the qualifying primes)"""
+    keep = [q for q in first_primes(2 * size + 40) if q == 2 or pow(mm.n % q, (q - 1) // 2, q) == 1]
+    cnt = 8 * min((size + 7) // 8, len(keep) // 8)
+    return [q for q in keep[:max(cnt - 16, 0)] if q != 2]
+
+
+def final_relation(mm, rng, fs, tries=400):
+    """complete relation x^2 = prod fs (mod n); fs may be adjusted by the sign"""
+    v = fvalue(fs, mm.n)
+    x = mm.sqrt(v, rng)
+    if x is None:
+        return None
+    return (x, 1, 1, fs)
+
+
+def final_step_case(rng, kind):
+    nf = {"semi": 2, "lanczos": 2}.get(kind, rng.choice([2, 3, 3, 4]))
+    bits = rng.randint(18, 30)
+    ps = set()
+    while len(ps) < nf:
+        ps.add(gen.rand_prime(rng, bits + rng.randint(-2, 2)))
+    mm = MultiModulus(sorted(ps))
+    n = mm.n
+    size = 11000 if kind == "lanczos" else rng.choice([24, 48, 120, 400])
+    fb = usable_fb_primes(mm, size)
+    # base primes that are themselves squares modulo every factor of n (a relation with one of them alone exists)
+    good = [q for q in fb[:2000] if mm.is_square(q)]
+    rels = []
+    if kind == "empty" or not good:
+        kind = "empty"
+    elif kind == "trivial-even":
+        # x = prod p^e exactly: every combination has a = b
+        for _ in range(rng.randint(3, 60)):
+            es = [(q, rng.randint(1, 3)) for q in rng.sample(good, min(len(good), rng.randint(1, 5)))]
+            x = 1
+            for q, e in es:
+                x = x * pow(q, e, n) % n
+            if rng.random() < 0.3:
+                x = (n - x) % n
+            rels.append((x, 1, 1, sorted((q, 2 * e) for q, e in es)))
+    elif kind == "trivial-dups":
+        # every relation has a private prime; the only dependencies are the duplicates (x, x) or (x, n - x)
+        for q in rng.sample(good, min(len(good), rng.randint(2, 40))):
+            r = final_relation(mm, rng, [(q, rng.choice([1, 3]))])
+            if r:
+                rels.append(r)
+                rels.append(r if rng.random() < 0.5 else ((n - r[0]) % n, 1, 1, r[3]))
+        rng.shuffle(rels)
+    elif kind == "lanczos":
+        pool = fb[:5400]
+        count = 2 * len(pool)
+        guard = 0
+        while len(rels) < count and guard < 40 * count:
+            guard += 1
+            fs = sorted((q, 1) for q in rng.sample(pool, 3))
+            if rng.random() < 0.3:
+                fs = [(-1, 1)] + fs
+            if not mm.is_square(fvalue(fs, n)):
+                continue
+            r = final_relation(mm, rng, fs)
+            if r:
+                rels.append(r)
+    else:
+        # few / many: random relations over a small pool; `many` has a large excess of relations
+        pool = rng.sample(fb[:200], min(len(fb[:200]), rng.randint(4, 30)))
+        extra = rng.randint(0, 3) if kind == "few" else rng.randint(20, 80)
+        guard = 0
+        while len(rels) < len(pool) + extra and guard < 5000:
+            guard += 1
+            fs = sorted((q, rng.choice([1, 1, 1, 2, 3])) for q in rng.sample(pool, rng.randint(1, min(6, len(pool)))))
+            if rng.random() < 0.4:
+                fs = [(-1, rng.choice([1, 1, 2]))] + fs
+            if rng.random() < 0.1:
+                fs.append((rng.choice([1000003, 15485863, 2147483647]), 2))      # outside the base, even exponent
+            if not mm.is_square(fvalue(fs, n)):
+                continue
+            r = final_relation(mm, rng, fs)
+            if r:
+                rels.append(r)
+    # columns of the matrix final_step builds: primes (or the sign) with more than one odd occurrence
+    occ = {}
+    for r in rels:
+        for q, e in r[3]:
+            if e % 2:
+                occ[q] = occ.get(q, 0) + 1
+    ncols = sum(1 for v in occ.values() if v > 1)
+    line = f"final_step {n} {size} " + (";".join(rtoken(*r) for r in rels) if rels else "-")
+    return Case(line, k=False, tag=f"fstep/{kind}/{'lanczos' if ncols > 5000 else 'gauss'}", timeout=600.0)
+
+
 def item(rel, pq):
     return rtoken(*rel) + "|" + (f"{pq[0]},{pq[1]}" if pq else "-")
 
@@ -306,6 +445,29 @@ def history(rng, size, style):
     return w, ops[:max(size, 1)]
 
 
+def chain_case(rng, depth, k, profiles=None):
+    """depth chained doubles (p1,p2),(p2,p3),.. then the single p1: one walk of that depth"""
+    w = World(rng)
+    w.maxlarge = 1 << 21
+    ps, q = [], (1 << 14) + 1
+    while len(ps) < depth + 1:
+        q = gen.next_prime(q + 1)
+        if q not in (w.m.p1, w.m.p2):
+            ps.append(q)
+    assert ps[-1] < w.maxlarge
+    ops = []
+    for a, b in zip(ps, ps[1:]):
+        r = w.relation(a * b, 1)
+        ops.append((r, (a, b) if rng.random() < 0.5 else (b, a)))
+    ops.append((w.relation(ps[0] if rng.random() < 0.7 else ps[-1], 1), None))
+    if k:
+        return Case(f"rs_history {w.n} {len(w.fb)} {w.maxlarge} " + ";".join(item(r, pq) for r, pq in ops),
+                    tag="hist/chain", timeout=600.0)
+    # deep chains: counters only (the store dump is quadratic in the chain length), no model run
+    return Case(f"rs_history_stats {w.n} {len(w.fb)} {w.maxlarge} " + ";".join(item(r, pq) for r, pq in ops),
+                k=False, tag=f"hist/chain-deep/{depth}", timeout=900.0, profiles=profiles)
+
+
 def history_case(rng, size, style):
     w, ops = history(rng, size, style)
     line = f"rs_history {w.n} {len(w.fb)} {w.maxlarge} " + (";".join(item(r, pq) for r, pq in ops) if ops else "-")
@@ -354,6 +516,13 @@ def single_op_cases(rng, count):
             rel = (x, rng.getrandbits(rng.choice([1, 7, 8, 32, 63, 64])), rng.getrandbits(rng.choice([1, 7, 14, 64])), fs)
             yield Case(f"rel_roundtrip {rtoken(*rel)}", tag="roundtrip/wide")
             yield Case(f"rel_pack {rtoken(*rel)}", tag="pack/wide")
+            if i % 64 == 3:
+                # long factor lists (255, 256, 257, .. entries): nothing may be cut off
+                cnt = rng.choice([255, 256, 257, 300, 600, 1000])
+                fs = [(rng.choice(SMALL), rng.choice([1, 1, 2, 5])) for _ in range(cnt)]
+                rel = (rng.getrandbits(300), rng.getrandbits(31) | 1, 1, fs)
+                yield Case(f"rel_roundtrip {rtoken(*rel)}", tag="roundtrip/long")
+                yield Case(f"rel_pack {rtoken(*rel)}", tag="pack/long")
         elif c == 4:
             # a^2 = b^2 pairs: trivial and non-trivial
             a = rng.randrange(n)
@@ -462,6 +631,23 @@ def cases(tier, rng, extended=False):
             if p1 == p2:
                 continue
             yield Case(f"sieve_history {alg} {p1 * p2} {extra}".strip(), k=False, tag=f"real/{alg}", timeout=300.0)
+    # final_step on constructed relation sets (n = product of 2..4 known primes): empty set, sets whose kernel
+    # is entirely trivial, few/many dependencies, and more than 5000 columns (block Lanczos instead of Gauss);
+    # the kernel the real solver returned is handed to the model (followup)
+    kinds = ["empty", "trivial-even", "trivial-dups", "few", "many", "many", "semi"]
+    for i in range((40 if quick else 1500) * (3 if extended else 1)):
+        yield final_step_case(rng, kinds[i % len(kinds)])
+    for _ in range(1 if quick else 6):
+        yield final_step_case(rng, "lanczos")
+    # long chains of doubles closed by one single: recursion depth = chain length (the explicit stack of
+    # walk_doubles since fix e402536; before it 8000 links overflowed the 8 MiB main-thread stack)
+    for depth in ([120, 300] if quick else [50, 120, 300, 300, 500]):
+        yield chain_case(rng, depth, True)
+    if quick:
+        yield chain_case(rng, 8000, False, profiles=["release"])
+    else:
+        for depth in [3000, 8000, 12000]:
+            yield chain_case(rng, depth, False)
     # real final_step calls: inputs, kernel vectors and divisors recorded by the hook; the model replays
     # everything around the kernel solver (occurrence table, sort, filter, accumulation, combine, try_factor)
     fconfigs = [("siqs", 80, 2, ""), ("mpqs", 70, 2, "dbl=1"), ("qs", 60, 2, ""), ("siqs", 110, 2, "dbl=1"),
@@ -496,6 +682,12 @@ def parse_history_answer(ans):
 
 def followup(case, ans):
     """replay of a REAL recorded history through the model; expected = the real store's answer"""
+    if case.op == "final_step":
+        parts = ans.split(" || ")
+        if len(parts) != 3:
+            return None
+        a = case.args
+        return (f"final_replay {a[0]} {parts[1]} {a[2]} {parts[2]}", parts[0])
     if case.op not in ("sieve_history", "sieve_final") or " || " not in ans:
         return None
     parts = ans.split(" || ")
@@ -544,6 +736,20 @@ def oracle(case, ans):
     op, a = case.op, case.args
     if ans in ("hang", "abort", "?") or ans.startswith("panic"):
         return f"no value returned ({ans})"
+    if op == "rs_history_stats":
+        depth = a[3].count(";")
+        want = f"cycles=0 stats=1,{depth},{depth},0,0,0,0,0,0,0,0"
+        return None if ans == want else f"chain of {depth} doubles + one single: expected {want}, got {ans[:80]}"
+    if op == "final_step":
+        parts = ans.split(" || ")
+        if len(parts) != 3:
+            return "malformed answer"
+        n = int(a[0])
+        if parts[0] != "-":
+            for d in map(int, parts[0].split(",")):
+                if not (1 < d < n and n % d == 0):
+                    return f"final_step returned {d}, not a proper divisor of {n}"
+        return None
     if op == "sieve_final":
         parts = ans.split(" || ")
         if len(parts) != 3:
@@ -677,6 +883,15 @@ def oracle(case, ans):
 
 
 def klass(case, ans):
+    if case.op == "rs_history_stats":
+        return f"rs_history_stats/{case.tag}/{'ok' if ans.startswith('cycles=') else ans[:12]}"
+    if case.op == "final_step":
+        parts = ans.split(" || ")
+        if len(parts) != 3:
+            return f"final_step/{case.tag}/{ans[:10]}"
+        nd = 0 if parts[0] == "-" else parts[0].count(",") + 1
+        nk = 0 if parts[2] == "-" else parts[2].count(";") + 1
+        return f"final_step/{case.tag}/kernel={'0' if nk == 0 else '1+' if nk < 10 else '10+'}/divisors={nd}"
     if case.op == "sieve_final":
         parts = ans.split(" || ")
         nd = 0 if len(parts) != 3 or parts[2] == "-" else parts[2].count(",") + 1
@@ -702,6 +917,8 @@ def klass(case, ans):
 
 
 def nontrivial(case, ans):
+    if case.op == "final_step":
+        return case.args[2] != "-"
     if case.op in ("sieve_history", "sieve_final"):
         return " || " in ans and ans.split(" || ")[1] != "-"
     if case.op == "rs_history":
@@ -715,12 +932,19 @@ def extra_coverage():
             "add_branch_tag_legend": "kind(c complete,s single,d double,q p=q,x dropped) hp hq rep . new-cycles . new-partials . doubles-removed(+ = stored)"}
 
 
-CLAIM = ("Lean theorems about a line-by-line model of the relation store: combine preserves the congruence, one add preserves the "
+CLAIM = ("For every modulus n <= 2^512 (the code's own limit: 8 packed words, 1024-bit products; the library only builds stores with "
+         "n*k < 2^508, and a 513-bit counter-witness shows the bound is needed): "
+         "Lean theorems about a line-by-line model of the relation store: combine preserves the congruence, one add preserves the "
          "store invariant for every input inside the callers' contract, hence (induction over the history) every published cycle has "
          "cofactor 1 and is a true congruence for every finite history; pack/unpack preserve the congruence; even exponent "
-         "combinations give a^2 = b^2; try_factor returns proper divisors only and never panics for a, b < n. The model is tied to "
+         "combinations give a^2 = b^2; try_factor returns proper divisors only and never panics for a, b < n; final_step, whenever it "
+         "returns (its assertions are not claimed to hold for arbitrary kernels/relations), returns proper divisors only. The model is tied to "
          "the code by running synthetic histories through the real RelationSet and the model and comparing every published cycle, "
-         "branch tag and the final store; a Python oracle re-checks every published relation and the final store of the real code.")
-LEVEL_NOTE = ("Trusted: Lean kernel (+propext, Classical.choice, Quot.sound); the model's correspondence to the Rust code (checked by "
+         "branch tag and the final store, recorded add histories and final_step calls of real siqs/mpqs/qs runs, and final_step on "
+         "constructed relation sets (empty, all-trivial kernels, few/many dependencies, > 5000 columns = block Lanczos) with the real "
+         "kernel handed to the model; a Python oracle re-checks every published relation, the final store and every returned divisor.")
+LEVEL_NOTE = ("Domain: n <= 2^512 for the store theorems (stated hypothesis; real stores have n*k < 2^508); add_no_panic excludes only u64 "
+              "counter overflow; stack depth is outside the model (explicit stack in the code since fix e402536, exercised up to 20000 links). "
+              "Trusted: Lean kernel (+propext, Classical.choice, Quot.sound); the model's correspondence to the Rust code (checked by "
               "differential runs, not proved); bnum/num_integer as Nat/Int arithmetic; std collections as ordered maps; Python integers.")
 TECHNIQUE = "Lean 4 proof about a hand model (history induction) + differential correspondence check + spec oracle"
